@@ -44,6 +44,8 @@ func ParseTags(tag string, n *Node) ([]string, error) {
 			out = append(out, "TRequired")
 		case "dive":
 			out = append(out, "TDive")
+		case "ctor-headers":
+			out = append(out, "TCtorHeaders")
 		case "endpoint":
 			out = append(out, "TEndpoint")
 		case "url-path":
